@@ -33,6 +33,7 @@ def run(R, tier, seed, driver_ok):
               'bounds × max_iter ∈ {1,2,5,50,1000} × tol; ITML and ITML_Supervised; feasible-prior cases. case = (pairs, options); all non-trivial')
     R.assumptions = ['the prior is taken from the real initialiser (C20 covers it); default bounds are percentiles computed by NumPy']
     lines, meta = [], []
+    nonpsd = []
     for rep in range(reps):
         d = int(rng.randint(2, 6))
         X, y = zoo.blobs(rng, d)
@@ -73,6 +74,13 @@ def run(R, tier, seed, driver_ok):
                     est = ITML(prior=prior, gamma=gamma, max_iter=max_iter, tol=tol, random_state=sd)
                     est.fit(pairs, yy, bounds=None if bounds is None else np.array(bounds))
         except Exception as e:
+            from metric_learn.exceptions import NonPSDError
+            if isinstance(e, NonPSDError):
+                # over ℝ the iterate is always positive definite (C11_pd); in binary64 an extremely ill-conditioned
+                # iterate can lose definiteness, and fit then refuses to return it.  Isolated cases are counted; a
+                # systematic loss of definiteness is a violation.
+                nonpsd.append(case)
+                continue
             R.violation(f'ITML/fit-raises-{type(e).__name__}', f'ITML.fit raised {type(e).__name__}: {str(e)[:200]}', case)
             continue
         finally:
@@ -107,6 +115,9 @@ def run(R, tier, seed, driver_ok):
         Vp = V * (1 + 2.2e-16 * rng.randn(*V.shape))
         lines.append(f'itml_run {d} {len(V)} {len(pos)} {f2b(gamma)} {f2b(tol)} {max_iter} {f2b(u)} {f2b(l)} {bits(A0p)} {bits(Vp)}')
         meta.append(None)
+    R.count('fit-refused-nonpsd-iterate (rounding)', len(nonpsd)) if nonpsd else None
+    if len(nonpsd) > max(2, reps // 10):
+        R.violation('ITML/not-spd-systematic', f'{len(nonpsd)} of {reps} fits lost positive definiteness (NonPSDError)', nonpsd[0])
     if driver_ok and lines:
         outs = lean_run(lines)
         worst = 0.0
